@@ -516,6 +516,19 @@ class Run:
             self.bad((self.coll, self.algo) if self.coll == "bcast" else ("bcast", "default"), kind + ":comm-create", p, None, msg[-700:])
 
     def bad(self, target, kind, p, ci, msg):
+        if self.coll == "bcast" and target != (self.coll, self.algo):
+            # every communicator of this run was created through the bcast algorithm under test (context id).  When that algorithm
+            # has a KNOWN finding that hits communicator creation at this size (ranks returning without the data, unmatched messages),
+            # a failure of another function on that communicator is its consequence, not a defect of that function
+            f0 = {k: v for k, v in self.features(p, None).items()}
+            for e in known_entries():
+                ks = e["match"].get("kinds", [])
+                if any(k.endswith(":comm-create") for k in ks) and _in_domain(e, "%s:%s" % (self.coll, self.algo), f0):
+                    msg = "[seen in %s %s on a communicator created with this bcast] %s" % (target[0], target[1], msg)
+                    target = (self.coll, self.algo)
+                    kind = kind if kind in ks else [k for k in ks if k.endswith(":comm-create")][0]
+                    ci = None
+                    break
         self.fail.setdefault((target, kind), []).append((p, ci, msg))
         if known_match(target, kind, self.features(p, ci)) is None:
             self.unknown_failures[target] = self.unknown_failures.get(target, 0) + 1
@@ -750,6 +763,7 @@ def cases(draw, tier):
 
 class C29(core.Prop):
     id = "C29"
+    ready = True
     drivers = ["mpi_interp"]
     sizes = {"quick": 60, "thorough": 3000}
     max_workers = 6
